@@ -22,6 +22,8 @@ IDENTIFIER_FIXED = ["", "1", "0001", "a/b", "x#y", "a b", "é", "A", "a_1", "1:2
 # fi ligature, full-width letters, long s with dot below + above, OHM SIGN, i + combining dot, dotted capital I, sharp s, a
 # titlecase digraph, KELVIN SIGN, a CJK compatibility ideograph, superscript two
 NORMALISATION_SENSITIVE = ["e\u0301", "\u212b", "\ufb01", "\uff27\uff2f", "\u1e9b\u0323", "\u2126", "i\u0307", "\u0130", "\u00df", "\u01c5", "\u212a", "\uf900", "x\u00b2"]
+# strings with (Unicode) whitespace at an edge: legal in prefixes and URI prefixes, changed by any strip()
+WHITESPACE_EDGED = ["a\u00a0", "\u00a0a", "b\u3000", "\u2003c", "d ", " e", "\tf", "g\n", "\u00a0"]
 LONG_BASES = ["http://purl.obolibrary.org/obo/", "https://example.org/ns#", "urn:x:", "http://purl.obolibrary.org/obo/CHEBI_", "HTTP://EXAMPLE.ORG/",
               "http://long.example.org/" + "segment/" * 40]  # > 300 characters
 
@@ -57,7 +59,7 @@ def curie_pool(draw, min_size: int, max_size: int, *, forbidden: str = "", allow
             base = draw(st.sampled_from(pool))
             new = base.swapcase() if mode == 0 else (base + draw(st.sampled_from(alpha)) if mode == 1 else base[:-1])
         elif unicode_arm and mode == 3:
-            new = draw(st.one_of(st.text(UNICODE, max_size=3), st.sampled_from(NORMALISATION_SENSITIVE)))
+            new = draw(st.one_of(st.text(UNICODE, max_size=3), st.sampled_from(NORMALISATION_SENSITIVE), st.sampled_from(WHITESPACE_EDGED)))
             if forbidden:
                 for ch in set(forbidden):
                     new = new.replace(ch, "")
@@ -96,7 +98,8 @@ def uri_pool(draw, min_size: int, max_size: int, *, alphabet: str = URI_ALPHA, a
             else:
                 new = draw(st.sampled_from(alphabet)) + base
         elif unicode_arm and mode == 7:
-            new = draw(st.one_of(st.text(UNICODE, max_size=4), st.sampled_from(NORMALISATION_SENSITIVE).map(lambda x: "http://n/" + x + "/")))
+            new = draw(st.one_of(st.text(UNICODE, max_size=4), st.sampled_from(NORMALISATION_SENSITIVE).map(lambda x: "http://n/" + x + "/"),
+                               st.sampled_from(WHITESPACE_EDGED).map(lambda x: "http://w/" + x), st.sampled_from(WHITESPACE_EDGED)))
         elif long_arm and mode == 8:
             new = draw(st.sampled_from(LONG_BASES)) + draw(txt(alphabet, max_size=2))
         else:
@@ -157,6 +160,7 @@ def record_sets(
     patterns: bool = False,
     unicode_arm: bool = True,
     foreign_delimiters: bool = False,
+    repeat_synonyms: bool = False,
 ):
     """A record list that a strict Converter accepts, by construction."""
     n = draw(st.integers(min_records, max_records))
@@ -198,6 +202,12 @@ def record_sets(
         recs[draw(st.integers(0, n - 1))]["prefix_synonyms"].append(extra)
     for extra in up[n:]:
         recs[draw(st.integers(0, n - 1))]["uri_prefix_synonyms"].append(extra)
+    if repeat_synonyms and draw(st.integers(0, 4)) == 0:
+        # a record may list one of its synonyms twice (the Record validators allow it; only different records clash)
+        r = draw(st.sampled_from(recs))
+        side = draw(st.sampled_from(["prefix_synonyms", "uri_prefix_synonyms"]))
+        if r[side]:
+            r[side].append(draw(st.sampled_from(r[side])))
     if patterns:
         for r in recs:
             if draw(st.integers(0, 2)) == 0:
